@@ -241,6 +241,13 @@ func c13Run(c *core.Ctx) {
 		setBlock(&srcCase{})
 		c13ResolveThen(c, []byte(src), verStr(v))
 	})
+	for _, cs := range deepCases(c) {
+		if c.Next() {
+			drive.SetBlockSize(drive.ProdBlock)
+			c13Tree(c, cs.Src, cs.Ver, 2, nil)
+			setBlock(&srcCase{})
+		}
+	}
 	// name-resolution-heavy and error-carrying programs
 	for _, s := range c13Extra {
 		for _, v := range []string{"7.4", "5.6"} {
